@@ -63,8 +63,20 @@ def run_real(states, grid):
         if b["hour"] and b["open"]:
             frames.append(book_frame(b["book"], info, extra_rows=[("Z", b["px"])]))
             keys.append(ts_of(b["t"]))
+    if grid == 5:
+        # the hours between the two-hour bars exist in the data: other underlying, other marks, deeper books - never to be seen
+        sentinel = horizon + 120
+        decoy_hours = [h for h in range(bars[0]["t"] + 60, sentinel, 120) if (h // 60) not in states[0]["c"]["miss"]]
+        for t in decoy_hours:
+            near = max((b for b in bars if b["t"] < t), key=lambda b: b["t"])
+            decoy = {i: ({**row, "und": row["und"] + 137, "mark": row["mark"] * 3} if row.get("listed") else row)
+                     for i, row in near["book"].items()}
+            frames.append(book_frame(decoy, info, extra_rows=[("Z", near["px"] + 137)]))
+            keys.append(ts_of(t))
     frames.append(book_frame({}, info, extra_rows=[("Z", bars[-1]["px"])]))
     keys.append(ts_of(sentinel))
+    order = sorted(range(len(keys)), key=lambda k: keys[k])
+    frames, keys = [frames[k] for k in order], [keys[k] for k in order]
     data = pd.concat(frames, keys=keys, names=["time", "instrument_name"])
     act = Actuator()
     eth = DeribitOptionMarket.ETH
@@ -95,6 +107,9 @@ def run_real(states, grid):
             ppx.append(last)
         if grid == 1:
             act.interval = "1h"
+        if grid == 5:
+            ppx = [p if (t // 60) % 2 == 0 else p + 137 for t, p in zip(hours, ppx)]      # the odd hours' prices are decoys too
+            act.interval = "2h"
     act.broker.add_market(opt)
     act.set_price(pd.DataFrame(index=pidx, data={"ETH": [Decimal(str(float(p))) if Fraction(p).denominator != 1 else Decimal(int(p)) for p in ppx]}), USDC)
     act.broker.set_balance(eth, 1000)
@@ -355,7 +370,7 @@ def run(chk: Check) -> int:
     replay_many(chk, behs, 1, notes)
     total += len(behs)
     # 2. simulated behaviours per grid (two / three trades, all configurations)
-    for grid in (1, 2, 3, 4):
+    for grid in (1, 2, 3, 4, 5):
         cfg = f"MC_Deribit_c16_g{grid}.cfg" if quick else f"MC_Deribit_c16_g{grid}_thorough.cfg"
         res, sb = tlc.simulate(SPEC, SPEC.parent / cfg, chk.tmp, num=320 if quick else 6000, depth=30, seed=chk.seed + grid,
                                workers=16, timeout=1500)
